@@ -82,14 +82,17 @@ type Conn struct {
 
 // Net is the simulated network.
 type Net struct {
-	s       *Sim
-	mu      quietMutex
-	hosts   map[string]http.Handler
-	conns   []*Conn
-	Faults  NetFaults
-	Script  func(c *Conn) *Outcome // consulted first; nil result = no script for this request
-	OnConn  func(c *Conn)          // called when an exchange starts (before delivery)
-	OnWrite func(c *Conn, p []byte)
+	s      *Sim
+	mu     quietMutex
+	hosts  map[string]http.Handler
+	conns  []*Conn
+	Faults NetFaults
+	Script func(c *Conn) *Outcome // consulted first; nil result = no script for this request
+	// NoWriterContract: the servers of this run are harness scripts (C07, C16), not the library;
+	// their use of the ResponseWriter is not recorded as a library incident
+	NoWriterContract bool
+	OnConn           func(c *Conn) // called when an exchange starts (before delivery)
+	OnWrite          func(c *Conn, p []byte)
 
 	stallMu    sync.Mutex
 	stallCh    chan struct{}
@@ -519,7 +522,7 @@ type respWriter struct {
 // on another goroutine, or that starts later, races with that in a real server.
 func (w *respWriter) handlerReturned() {
 	atomic.StoreInt32(&w.returned, 1)
-	if atomic.LoadInt32(&w.inCall) > 0 {
+	if atomic.LoadInt32(&w.inCall) > 0 && !w.c.n.NoWriterContract {
 		w.c.n.s.addLibEvent(fmt.Sprintf("http.ResponseWriter used after the handler returned: the handler of c%d %s %s returned while a Write/Flush by another goroutine was in progress", w.c.ID, w.c.Method, w.c.Path))
 	}
 }
@@ -528,10 +531,10 @@ func (w *respWriter) handlerReturned() {
 // Write/Flush (they share one bufio.Writer), so two calls overlapping in time are a data race in a
 // real server even though the simulated writer itself would survive it.
 func (w *respWriter) enter(what string) {
-	if atomic.LoadInt32(&w.returned) != 0 && !w.c.n.s.dead.Load() {
+	if atomic.LoadInt32(&w.returned) != 0 && !w.c.n.s.dead.Load() && !w.c.n.NoWriterContract {
 		w.c.n.s.addLibEvent(fmt.Sprintf("http.ResponseWriter used after the handler returned: %s on c%d %s %s [%s]", what, w.c.ID, w.c.Method, w.c.Path, TopLibFrame(string(debug.Stack()))))
 	}
-	if atomic.AddInt32(&w.inCall, 1) > 1 {
+	if atomic.AddInt32(&w.inCall, 1) > 1 && !w.c.n.NoWriterContract {
 		w.c.n.s.addLibEvent(fmt.Sprintf("concurrent use of http.ResponseWriter: %s entered while another Write/Flush on c%d %s %s is in progress", what, w.c.ID, w.c.Method, w.c.Path))
 	}
 }
